@@ -705,11 +705,12 @@ zif_utc_time(zif_t z, time_t t)
 	while ((xj = __offs(AS_MUT_ZIF(z), t - xi)) != xi && xi != old) {
 		old = xi = xj;
 	}
-	if (UNLIKELY(xj != xi)) {
-		/* no fixed point, T is a wall-clock time that is skipped,
-		 * the two estimates are the offsets on either side of the gap;
-		 * go with the one from before the gap (RFC 5545, 3.3.5),
-		 * which is the smaller one, clocks only skip forward */
+	if (UNLIKELY(xj != xi && __offs(AS_MUT_ZIF(z), t - xj) != xj)) {
+		/* the second estimate is no fixed point either, T is a
+		 * wall-clock time that is skipped and the two estimates are
+		 * the offsets on either side of the gap; go with the one from
+		 * before the gap (RFC 5545, 3.3.5), which is the smaller one,
+		 * clocks only skip forward */
 		xj = xj < xi ? xj : xi;
 	}
 	return t - xj;
